@@ -11,7 +11,8 @@ CodeType = types.CodeType
 V = sys.version_info[:2]
 
 ALTER_BASE = ("def f(a):\n    'doc'\n    v = 12345\n    return a.attr + v\n"
-              "x = 12345\n")
+              "x = 12345\n"
+              "def g(fv, *, kwo=1):\n    def h():\n        return fv\n    return h\n")
 
 
 def _replace_nested(code, fn):
@@ -57,6 +58,17 @@ def build_altered(alter):
     elif kind == "argname":
         def fn(c):
             return code_replace(c, co_varnames=tuple(val if n == "a" else n for n in c.co_varnames)) if is_f(c) else c
+    elif kind == "freevar_name":
+        def fn(c):
+            if c.co_name == "h":
+                return code_replace(c, co_freevars=tuple(val if n == "fv" else n for n in c.co_freevars))
+            if c.co_name == "g":
+                return code_replace(c, co_cellvars=tuple(val if n == "fv" else n for n in c.co_cellvars),
+                                    co_varnames=tuple(val if n == "fv" else n for n in c.co_varnames))
+            return c
+    elif kind == "kwonly_name":
+        def fn(c):
+            return code_replace(c, co_varnames=tuple(val if n == "kwo" else n for n in c.co_varnames)) if c.co_name == "g" else c
     elif kind == "co_name":
         def fn(c):
             return code_replace(c, co_name=val) if is_f(c) else c
@@ -68,7 +80,7 @@ def build_altered(alter):
             return code_replace(c, co_names=tuple(val if n == "x" else n for n in c.co_names)) if not is_f(c) else c
     else:
         raise Reject("unknown alteration")
-    if kind in ("names", "varnames", "argname", "co_name", "filename", "global_name") and not isinstance(val, str):
+    if kind in ("names", "varnames", "argname", "co_name", "filename", "global_name", "freevar_name", "kwonly_name") and not isinstance(val, str):
         raise Reject("needs str")
     try:
         return _replace_nested(base, fn)
